@@ -11,11 +11,18 @@ a private directory, real formats, real key files.  Every open-for-writing is re
 attempts, whatever API is used; builtins.open wrapper: successes) and the whole directory is snapshotted
 before and after.
 
-The model receives (fields with their outcomes, key-file states, format known?, formatter outcome) and
-predicts (outcome, files opened for writing in order, final content of destination and key files).
+A case is a HISTORY on one configuration object: its first save, then optionally more steps -- further
+saves (new values, new faults, other destination / format) and changes made by someone else in between
+(a key file repaired, rotated, damaged or deleted; the destination overwritten or deleted).
+
+The model (Save.v, run_savefaults) receives per save (fields with their outcomes, format known?, formatter
+outcome) plus the world (key-file states, unwritable paths, random draws) and predicts for every step
+(outcome, files opened for writing in order, content of destinations and key files afterwards); it
+threads only the file system through the saves (KeyFile objects hold nothing between saves).
 The oracle does not use the model: failed save => destination byte-identical (or still absent), nothing
-but key files written; successful save => bytes == what dumps returned == an independent dumps of a twin
-configuration, and a fresh configuration loaded from the file holds equal values.
+but key files written; successful save => bytes == what dumps returned == an independent dumps of a
+brand-new configuration with equal values and the key files now on disk, and a brand-new configuration
+loaded from the file holds equal values.
 """
 import builtins
 import hashlib
@@ -128,9 +135,11 @@ def dotted(pre, key):
     return pre + "." + key if pre else key
 
 
-def populate(cfg, fields, pre, real, inject):
-    """set the values; collect the fault injections: inject["stubs"][id(field)] = (field, [(cfg, kind)]),
-    inject["cipher"] = set of plaintexts whose encryption must fail"""
+def populate(cfg, fields, pre, real, inject, stepno=0, first=True):
+    """set the values of save number `stepno`; collect the fault injections:
+    inject["stubs"][id(field)] = (field, [(cfg, kind)]), inject["cipher"] = set of plaintexts whose
+    encryption must fail.  Key files of sub-configurations are named once (first=True): naming one
+    again would replace the KeyFile object, whose life across saves is part of what is observed."""
     schema_fields = cfg._schema._fields
     for f in fields:
         kind, key = f[0], f[1]
@@ -144,20 +153,22 @@ def populate(cfg, fields, pre, real, inject):
             setattr(cfg, key, ANY_VALUES[f[2]])
         elif kind == "secret":
             if f[3]:
-                text = "S:" + dotted(pre, key)
+                text = "S%d:%s" % (stepno, dotted(pre, key))
                 setattr(cfg, key, text)
                 if f[4] == "enc":
                     inject["cipher"].add(text.encode())
+            else:
+                setattr(cfg, key, None)
         elif kind == "sub":
             sub = getattr(cfg, key)
-            if f[2]:
+            if f[2] and first:
                 sub._key_filename = real(f[2])
-            populate(sub, f[3], dotted(pre, key), real, inject)
+            populate(sub, f[3], dotted(pre, key), real, inject, stepno, first)
         elif kind == "list":
             setattr(cfg, key, [{} for _ in f[3]])
             items = list(getattr(cfg, key))
             for i, item_fields in enumerate(f[3]):
-                populate(items[i], item_fields, "%s[%d]" % (dotted(pre, key), i), real, inject)
+                populate(items[i], item_fields, "%s[%d]" % (dotted(pre, key), i), real, inject, stepno, True)
 
 
 def values_of(cfg, fields):
@@ -186,6 +197,21 @@ def rel_expanded(name):
     if name == "~":
         return "h"
     return "h" + name[1:] if name.startswith("~/") else name
+
+
+def steps_of(case):
+    """the history of a case: its first save (the top-level keys) and whatever follows in case["more"]:
+    ("save", {fmt, fields, dest, fmtfault, faults}) | ("ext", name, bytes-or-None)"""
+    first = {k: case[k] for k in ("fmt", "fields", "dest", "fmtfault", "faults")}
+    return [("save", first)] + [tuple(st) for st in case.get("more", [])]
+
+
+def dest_names(case):
+    out = []
+    for st in steps_of(case):
+        if st[0] == "save" and rel_expanded(st[1]["dest"]) not in out:
+            out.append(rel_expanded(st[1]["dest"]))
+    return out
 
 
 def make_world(root, case):
@@ -296,14 +322,6 @@ class _Patches:
         return False
 
 
-def _build(root, case):
-    schema = build_schema(case["fields"])
-    cfg = schema(key_filename=real_path(root, case["root_kf"]))
-    inject = {"stubs": {}, "cipher": set()}
-    populate(cfg, case["fields"], "", lambda n: real_path(root, n), inject)
-    return schema, cfg, inject
-
-
 def _has_sub_keyfile_secret(fields):
     def has_secret(fs):
         for f in fs:
@@ -323,97 +341,119 @@ def _has_sub_keyfile_secret(fields):
 
 
 def watch_paths(case):
-    return [rel_expanded(case["dest"])] + [rel_expanded(n) for n, _ in case["keyfiles"]]
+    return dest_names(case) + [rel_expanded(n) for n, _ in case["keyfiles"]]
 
 
 def impl(case):
+    """the whole history on ONE configuration object; returns one observation per step"""
     import cincoconfig  # noqa: F401
     from cincoconfig.core import Config
     _install_hook()
     root = os.path.realpath(tempfile.mkdtemp(prefix="verif_sf_"))
-    twin = os.path.realpath(tempfile.mkdtemp(prefix="verif_sf2_"))
     old_home = os.environ.get("HOME")
     real_open = builtins.open
-    info = {}
+    infos = []
+    trace = []
+    dests = set(dest_names(case))
+    watch = watch_paths(case)
+
+    def contents(snap):
+        return [None if snap.get(p) is None else (hashlib.sha1(snap[p]).digest() if p in dests else snap[p]) for p in watch]
+
+    def real(n):
+        return real_path(root, n)
+
     try:
-        # ---- the run under observation ----
         make_world(root, case)
         os.environ["HOME"] = os.path.join(root, "h")
-        schema, cfg, inject = _build(root, case)
-        before = snapshot(root)
-        dest_real = real_path(root, case["dest"])
-        successes = []
-        produced = []
-        orig_dumps = Config.dumps
-
-        def spy_dumps(self_, *a, **kw):
-            r = orig_dumps(self_, *a, **kw)
-            produced.append(r)
-            return r
-
-        def rec_open(file, mode="r", *a, **kw):
-            fh = real_open(file, mode, *a, **kw)
-            try:
-                if isinstance(file, (str, bytes, os.PathLike)) and any(ch in mode for ch in "wax+"):
-                    p = os.path.abspath(os.fsdecode(file))
-                    if p.startswith(root):
-                        successes.append(os.path.relpath(p, root))
-            except Exception:  # noqa
-                pass
-            return fh
-
+        schema = build_schema(case["fields"])
+        cfg = schema(key_filename=real(case["root_kf"]))        # the one object every save of the history uses
         ur = _Urandom(case["rng"])
-        outcome = "ok"
-        with _Patches(case, inject, ur):
-            with mock.patch.object(Config, "dumps", spy_dumps), mock.patch.object(builtins, "open", rec_open):
-                _REC["attempts"] = []
-                _REC["root"] = root
+        orig_dumps = Config.dumps
+        nsave = 0
+        for st in steps_of(case):
+            if st[0] == "ext":
+                target = os.path.join(root, rel_expanded(st[1]))
+                if st[2] is None:
+                    if os.path.exists(target):
+                        os.unlink(target)
+                else:
+                    with open(target, "wb") as fp:
+                        fp.write(st[2])
+                infos.append(None)
+                trace.append(("ext", [], contents(snapshot(root))))
+                continue
+            step = st[1]
+            inject = {"stubs": {}, "cipher": set()}
+            populate(cfg, step["fields"], "", real, inject, nsave, nsave == 0)
+            before = snapshot(root)
+            dest_real = real(step["dest"])
+            successes = []
+            produced = []
+            iv0 = ur.iv
+
+            def spy_dumps(self_, *a, **kw):
+                r = orig_dumps(self_, *a, **kw)
+                produced.append(r)
+                return r
+
+            def rec_open(file, mode="r", *a, **kw):
+                fh = real_open(file, mode, *a, **kw)
                 try:
+                    if isinstance(file, (str, bytes, os.PathLike)) and any(ch in mode for ch in "wax+"):
+                        p = os.path.abspath(os.fsdecode(file))
+                        if p.startswith(root):
+                            successes.append(os.path.relpath(p, root))
+                except Exception:  # noqa
+                    pass
+                return fh
+
+            outcome = "ok"
+            with _Patches(step, inject, ur):
+                with mock.patch.object(Config, "dumps", spy_dumps), mock.patch.object(builtins, "open", rec_open):
+                    _REC["attempts"] = []
+                    _REC["root"] = root
                     try:
-                        cfg.save(dest_real, case["fmt"])
-                    finally:
-                        _REC["root"] = None
-                except Exception as e:  # noqa
-                    outcome = _errkind(e)
-        after = snapshot(root)
-        attempts = [os.path.relpath(p, root) for p in _REC["attempts"]]
-        info.update(before=before, after=after, attempts=attempts, successes=list(successes), produced=list(produced),
-                    underflow=ur.underflow)
-
-        # ---- an independent serialisation of a twin configuration in a twin world ----
-        make_world(twin, case)
-        os.environ["HOME"] = os.path.join(twin, "h")
-        schema2, cfg2, inject2 = _build(twin, case)
-        ref = None
-        with _Patches(case, inject2, _Urandom(case["rng"])):
-            try:
-                ref = cfg2.dumps(case["fmt"])
-            except Exception:  # noqa
-                ref = None
-        info["ref"] = ref
-        info["want"] = values_of(cfg2, case["fields"])
-
-        # ---- a fresh configuration loaded from the written file ----
-        info["reload"] = None
-        if outcome == "ok":
-            os.environ["HOME"] = os.path.join(root, "h")
-            if _has_sub_keyfile_secret(case["fields"]):
-                info["reload"] = "skipped"      # F34 region (C03): sub-configuration key files do not survive a load
-            else:
-                try:
-                    cfg3 = build_schema(case["fields"])(key_filename=real_path(root, case["root_kf"]))
-                    cfg3.load(dest_real, case["fmt"])
-                    info["reload"] = values_of(cfg3, case["fields"])
-                except Exception as e:  # noqa
-                    info["reload"] = ("err", type(e).__name__, str(e)[:200])
-        _INFO[id(case)] = info
-
-        def content(rel):
-            b = after.get(rel)
-            if b is None:
-                return None
-            return hashlib.sha1(b).digest() if rel == rel_expanded(case["dest"]) else b
-        return (outcome, list(successes), [content(p) for p in watch_paths(case)])
+                        try:
+                            cfg.save(dest_real, step["fmt"])
+                        finally:
+                            _REC["root"] = None
+                    except Exception as e:  # noqa
+                        outcome = _errkind(e)
+            after = snapshot(root)
+            info = dict(before=before, after=after, attempts=[os.path.relpath(p, root) for p in _REC["attempts"]],
+                        successes=list(successes), produced=list(produced), underflow=ur.underflow,
+                        ref=None, want=None, reload=None)
+            if outcome == "ok":
+                # an independent serialisation: a brand-new configuration object with the same values, the key files
+                # as they are on disk now, the same IV stream
+                ur2 = _Urandom([])
+                ur2.iv = iv0
+                cfg2 = build_schema(case["fields"])(key_filename=real(case["root_kf"]))
+                inject2 = {"stubs": {}, "cipher": set()}
+                populate(cfg2, step["fields"], "", real, inject2, nsave, True)
+                with _Patches(step, inject2, ur2):
+                    try:
+                        info["ref"] = cfg2.dumps(step["fmt"])
+                    except Exception:  # noqa
+                        info["ref"] = None
+                info["underflow"] = info["underflow"] or ur2.underflow
+                info["want"] = values_of(cfg2, step["fields"])
+                # a fresh configuration loaded from the written file ("a new session")
+                if _has_sub_keyfile_secret(step["fields"]):
+                    info["reload"] = "skipped"      # F34 region (C03): sub-configuration key files do not survive a load
+                else:
+                    try:
+                        cfg3 = build_schema(case["fields"])(key_filename=real(case["root_kf"]))
+                        cfg3.load(dest_real, step["fmt"])
+                        info["reload"] = values_of(cfg3, step["fields"])
+                    except Exception as e:  # noqa
+                        info["reload"] = ("err", type(e).__name__, str(e)[:200])
+            infos.append(info)
+            trace.append((outcome, list(successes), contents(after)))
+            nsave += 1
+        _INFO[id(case)] = infos
+        return trace
     finally:
         _REC["root"] = None
         if old_home is None:
@@ -421,7 +461,6 @@ def impl(case):
         else:
             os.environ["HOME"] = old_home
         shutil.rmtree(root, ignore_errors=True)
-        shutil.rmtree(twin, ignore_errors=True)
 
 
 # ---------------------------------------------------------------------------------------------
@@ -449,8 +488,8 @@ def _resolve(fields, kf):
     return g_list(out)
 
 
-def formatter_fails(case):
-    if case["fmtfault"] == "patch":
+def formatter_fails(step):
+    if step["fmtfault"] == "patch":
         return True
 
     def anyvals(fs):
@@ -462,11 +501,12 @@ def formatter_fails(case):
             elif f[0] == "list":
                 for it in f[3]:
                     yield from anyvals(it)
-    return any(case["fmt"] in OUTSIDE[k] for k in anyvals(case["fields"]))
+    return any(step["fmt"] in OUTSIDE[k] for k in anyvals(step["fields"]))
 
 
 def gcase(case):
-    info = _INFO.get(id(case)) or {}
+    infos = _INFO.get(id(case)) or []
+    dests = set(dest_names(case))
     files = []
     nowrite = []
     for i, (name, state) in enumerate(case["keyfiles"]):
@@ -474,49 +514,69 @@ def gcase(case):
             files.append("(%s,%s)" % (g_str(rel_expanded(name)), g_bytes(KEYFILE_CONTENT[state](i))))
         elif state == "nodir":
             nowrite.append(g_str(rel_expanded(name)))
-    dest_rel = rel_expanded(case["dest"])
     if case["prev"] is not None:
-        files.append("(%s,%s)" % (g_str(dest_rel), g_bytes(hashlib.sha1(case["prev"]).digest())))
-    if dest_rel.startswith("nd/"):
-        nowrite.append(g_str(dest_rel))
-    if case["fmt"] not in FORMATS:
-        fmt = "None"
-    elif formatter_fails(case):
-        fmt = "(Some (Err EOtherExn))"
-    else:
-        ref = info.get("ref")
-        fmt = "(Some (Ok %s))" % g_bytes(hashlib.sha1(ref if ref is not None else b"<no reference>").digest())
+        files.append("(%s,%s)" % (g_str(rel_expanded(case["dest"])), g_bytes(hashlib.sha1(case["prev"]).digest())))
+    for d in dests:
+        if d.startswith("nd/"):
+            nowrite.append(g_str(d))
+    steps = []
+    for k, st in enumerate(steps_of(case)):
+        if st[0] == "ext":
+            rel = rel_expanded(st[1])
+            c = "None" if st[2] is None else "(Some %s)" % g_bytes(hashlib.sha1(st[2]).digest() if rel in dests else st[2])
+            steps.append("SExt %s %s" % (g_str(rel), c))
+            continue
+        step = st[1]
+        if step["fmt"] not in FORMATS:
+            fmt = "None"
+        elif formatter_fails(step):
+            fmt = "(Some (fconst (Err EOtherExn)))"
+        else:
+            ref = infos[k].get("ref") if k < len(infos) and infos[k] else None
+            fmt = "(Some (fconst (Ok %s)))" % g_bytes(hashlib.sha1(ref if ref is not None else b"<no reference>").digest())
+        steps.append("SSave %s %s %s" % (_resolve(step["fields"], case["root_kf"]), g_str(step["dest"]), fmt))
     world = "{| sv_files := %s; sv_nowrite := %s; sv_rng := %s; sv_log := [] |}" % (
         g_list(files), g_list(nowrite), g_list(case["rng"], g_bytes))
-    return ("{| c_home := %s; c_world := %s; c_cfg := %s; c_dest := %s; c_fmt := %s; c_watch := %s |}" % (
-        g_str("h"), world, _resolve(case["fields"], case["root_kf"]), g_str(case["dest"]), fmt,
-        g_list(watch_paths(case), g_str)))
+    return ("{| c_home := %s; c_world := %s; c_steps := %s; c_watch := %s |}" % (
+        g_str("h"), world, g_list(steps), g_list(watch_paths(case), g_str)))
 
 
 # ---------------------------------------------------------------------------------------------
 # the property itself, on the implementation (no model involved)
 # ---------------------------------------------------------------------------------------------
 def oracle(case, obs):
-    info = _INFO.get(id(case))
-    if not info:
+    infos = _INFO.get(id(case))
+    if not infos or obs == "hang":
         return ["harness: no observation record"]
+    bad = []
+    n = 0
+    for k, st in enumerate(steps_of(case)):
+        if st[0] != "save":
+            continue
+        where = "" if not case.get("more") else "step %d (save #%d): " % (k, n)
+        bad.extend(where + m for m in _oracle_save(case, st[1], infos[k], obs[k]))
+        n += 1
+    return bad
+
+
+def _oracle_save(case, step, info, obs):
     bad = []
     outcome = obs[0]
     before, after = info["before"], info["after"]
-    dest = rel_expanded(case["dest"])
+    dest = rel_expanded(step["dest"])
     keyfiles = {rel_expanded(n) for n, _ in case["keyfiles"]}
     changed = {p for p in set(before) | set(after) if before.get(p) != after.get(p)}
     if info["underflow"]:
         bad.append("harness: more os.urandom(32) draws than recorded")
-    # what the case was built to do (no model involved): without any fault the save must succeed; a fault
+    # what the step was built to do (no model involved): without any fault the save must succeed; a fault
     # that is certain to fire (every kind except an unusable key file, which only matters when a non-empty
     # secret reaches it) must make it fail; an unknown format name must leave the whole directory alone
-    certain = [f for f in case["faults"] if not f.startswith("keyfile-")]
-    if not case["faults"] and outcome != "ok":
+    certain = [f for f in step["faults"] if not f.startswith("keyfile-")]
+    if not step["faults"] and outcome != "ok":
         bad.append("no fault was injected, yet the save failed: %r" % (outcome,))
     if certain and outcome == "ok":
         bad.append("save succeeded although a fault was injected (%s)" % ", ".join(certain))
-    if "format" in case["faults"]:
+    if "format" in step["faults"]:
         if outcome != ("err", "key"):
             bad.append("unknown format name gave %r" % (outcome,))
         if changed or info["attempts"] or info["successes"]:
@@ -544,10 +604,10 @@ def oracle(case, obs):
             bad.append("file content differs from the bytes dumps returned (%s vs %s)" % (
                 _show(written), _show(info["produced"][-1])))
         if info["ref"] is None:
-            bad.append("save succeeded although an independent dumps of the same configuration fails")
+            bad.append("save succeeded although an independent dumps of an equal configuration fails")
         elif written != info["ref"]:
-            bad.append("file content differs from an independent dumps of the same configuration (%s vs %s)" % (
-                _show(written), _show(info["ref"])))
+            bad.append("file content differs from an independent dumps of an equal configuration with the key files "
+                       "now on disk (%s vs %s)" % (_show(written), _show(info["ref"])))
         for p in sorted(changed - {dest}):
             if p not in keyfiles:
                 bad.append("successful save changed/created %s, which is neither destination nor key file" % p)
@@ -558,7 +618,7 @@ def oracle(case, obs):
                 bad.append("successful save opened %s for writing" % p)
         if info["reload"] != "skipped" and info["reload"] != info["want"]:
             if not _same_values(info["reload"], info["want"]):
-                bad.append("configuration loaded from the saved file differs: %r vs %r" % (info["reload"], info["want"]))
+                bad.append("a fresh configuration loaded from the saved file differs: %r vs %r" % (info["reload"], info["want"]))
     return bad
 
 
@@ -579,29 +639,46 @@ def _show(b):
 
 
 def tags(case, obs):
-    t = {"fmt:" + case["fmt"], "kind:" + case["kind"]}
-    out = obs[0]
-    t.add("outcome:" + (out if isinstance(out, str) else (out[1] if isinstance(out[1], str) else out[1][0])))
-    t.add("dest:" + ("tilde" if case["dest"].startswith("~") else "nodir" if case["dest"].startswith("nd/") else "plain")
-          + (":prev" if case["prev"] is not None else ":absent"))
+    t = {"kind:" + case["kind"]}
+    if obs == "hang":
+        return t
+    infos = _INFO.get(id(case)) or []
+    steps = steps_of(case)
+    t.add("saves:%d" % sum(1 for st in steps if st[0] == "save"))
     for n, st in case["keyfiles"]:
         t.add("keyfile:" + st)
-    for f in case["faults"]:
-        t.add("fault:" + f)
-    if not case["faults"]:
-        t.add("fault:none")
-    info = _INFO.get(id(case)) or {}
-    if any(p in {rel_expanded(n) for n, _ in case["keyfiles"]} for p in obs[1]):
-        t.add("keyfile-created")
-    if info.get("reload") == "skipped":
-        t.add("reload:skipped(F34 region)")
-    elif info.get("reload") is not None:
-        t.add("reload:checked")
+    kfs = {rel_expanded(n) for n, _ in case["keyfiles"]}
+    prev_out = None
+    for k, st in enumerate(steps):
+        if st[0] == "ext":
+            t.add("ext:" + ("keyfile" if rel_expanded(st[1]) in kfs else "dest") + (":delete" if st[2] is None else ":write"))
+            continue
+        step, out = st[1], obs[k][0]
+        t.add("fmt:" + step["fmt"])
+        o = out if isinstance(out, str) else (out[1] if isinstance(out[1], str) else out[1][0])
+        t.add("outcome:" + o)
+        if prev_out is not None:
+            t.add("then:%s->%s" % (prev_out, "ok" if o == "ok" else "fail"))
+        prev_out = "ok" if o == "ok" else "fail"
+        d = step["dest"]
+        t.add("dest:" + ("tilde" if d.startswith("~") else "nodir" if d.startswith("nd/") else "plain"))
+        for f in step["faults"]:
+            t.add("fault:" + f)
+        if not step["faults"]:
+            t.add("fault:none")
+        if any(p in kfs for p in obs[k][1]):
+            t.add("keyfile-created")
+        info = infos[k] if k < len(infos) else None
+        if info and info.get("reload") == "skipped":
+            t.add("reload:skipped(F34 region)")
+        elif info and info.get("reload") is not None:
+            t.add("reload:checked")
+    t.add("dest0:" + ("prev" if case["prev"] is not None else "absent"))
     return t
 
 
 def nontrivial(case, obs):
-    return case["prev"] is not None or bool(case["faults"])
+    return case["prev"] is not None or any(st[0] == "save" and st[1]["faults"] for st in steps_of(case)) or bool(case.get("more"))
 
 
 # ---------------------------------------------------------------------------------------------
@@ -851,9 +928,171 @@ def random_case(rng):
     return c
 
 
+# ---- histories: several saves of ONE configuration object, files changed by others in between ----
+def save_step(fmt, fields, dest="d/dest.cfg", fmtfault=None, faults=()):
+    return ("save", {"fmt": fmt, "fields": fields, "dest": dest, "fmtfault": fmtfault, "faults": list(faults)})
+
+
+def vkey(j):
+    return KEYFILE_CONTENT["valid"](j)
+
+
+def without_secrets(fields):
+    out = []
+    for f in fields:
+        if f[0] == "secret":
+            out.append(f[:3] + (False, None))
+        elif f[0] == "sub":
+            out.append(f[:3] + (without_secrets(f[3]),))
+        elif f[0] == "list":
+            out.append(f[:3] + ([without_secrets(it) for it in f[3]],))
+        else:
+            out.append(f)
+    return out
+
+
+def histories(formats):
+    cases = []
+    base = base_fields()
+    K = "k/root.key"
+    GARBAGE = b"\x00not a configuration\xff" * 3
+    f_last = _replace(base, (7,), lambda s: s[:3] + ("raise",))
+    f_first = _replace(base, (0,), lambda s: s[:3] + ("raise",))
+    f_cipher = _replace(base, (4, 3, 1), lambda s: s[:4] + ("enc",))
+    for fmt in formats:
+        def hist(more, **kw):
+            c = mkcase(fmt, kw.pop("fields", base), kind="history", rng=[bytes([0xB0 + i]) * 32 for i in range(4)], **kw)
+            c["more"] = more
+            cases.append(c)
+        # unusable key file -> repaired -> rotated twice: every successful save must load back in a new session
+        for st in ("short", "empty", "long"):
+            hist([("ext", K, vkey(5)), save_step(fmt, base), ("ext", K, vkey(6)), save_step(fmt, base),
+                  ("ext", K, vkey(7)), save_step(fmt, base)], keyfiles=[(K, st)], faults=["keyfile-" + st])
+        # good -> key file damaged (save fails, file keeps the document of the first save) -> restored -> rotated
+        hist([("ext", K, b"12345"), save_step(fmt, base, faults=["keyfile-short"]), ("ext", K, vkey(0)),
+              save_step(fmt, base), ("ext", K, vkey(8)), save_step(fmt, base)])
+        # two different unusable states in a row, then good, then rotated
+        hist([("ext", K, bytes(33)), save_step(fmt, base, faults=["keyfile-long"]), ("ext", K, vkey(3)),
+              save_step(fmt, base), ("ext", K, vkey(4)), save_step(fmt, base)], keyfiles=[(K, "empty")],
+             faults=["keyfile-empty"])
+        # unusable key file, then a save that loads the repaired key but fails later, then rotation
+        hist([("ext", K, vkey(5)), save_step(fmt, f_last, faults=["to_basic"]), ("ext", K, vkey(6)), save_step(fmt, base)],
+             keyfiles=[(K, "short")], faults=["keyfile-short"])
+        # field fault -> good -> destination overwritten by someone else -> cipher fault (garbage survives) -> good
+        hist([save_step(fmt, base), ("ext", "d/dest.cfg", GARBAGE), save_step(fmt, f_cipher, faults=["cipher"]),
+              save_step(fmt, base)], fields=f_first, faults=["to_basic"])
+        # missing key file created -> deleted by someone else -> created again with the next draw;
+        # destination deleted -> formatter fault (stays absent) -> good
+        hist([("ext", K, None), save_step(fmt, base), ("ext", "d/dest.cfg", None),
+              save_step(fmt, base, fmtfault="patch", faults=["formatter"]), save_step(fmt, base)], keyfiles=[(K, "missing")])
+        # key file in a missing directory: fails every time; without secrets the same object saves fine
+        hist([save_step(fmt, base, faults=["keyfile-nodir"]), save_step(fmt, without_secrets(base)),
+              save_step(fmt, base, faults=["keyfile-nodir"])], keyfiles=[("nk/root.key", "nodir")], root_kf="nk/root.key",
+             faults=["keyfile-nodir"])
+        # several destinations
+        hist([save_step(fmt, f_first, dest="d/b.cfg", faults=["to_basic"]), save_step(fmt, base, dest="~/dest.cfg"),
+              save_step("nope", base, faults=["format"]), save_step(fmt, base, dest="d/b.cfg"),
+              save_step(fmt, base, dest="nd/x.cfg", faults=["dest-open"])])
+        # unknown format -> good -> formatter fault -> good, other format in between
+        other = formats[(formats.index(fmt) + 1) % len(formats)]
+        hist([save_step(fmt, base), save_step(other, base, fmtfault="patch", faults=["formatter"]), save_step(other, base),
+              save_step(fmt, base)], prev=None)
+        # the sub-configuration's own key file: unusable -> repaired -> rotated (reload is in the F34 region; the bytes
+        # are still compared with an independent serialisation under the key on disk)
+        withsub = _replace(base, (4,), lambda s: s[:2] + ("k/sub.key",) + s[3:])
+        hist([("ext", "k/sub.key", vkey(9)), save_step(fmt, withsub), ("ext", "k/sub.key", vkey(10)), save_step(fmt, withsub),
+              ("ext", K, vkey(11)), save_step(fmt, withsub)],
+             fields=withsub, keyfiles=[(K, "valid"), ("k/sub.key", "short")], faults=["keyfile-short"])
+    return cases
+
+
+BAD_STATES = ("short", "empty", "long", "nodir")
+
+
+def _clear_faults(fields):
+    out = []
+    for f in fields:
+        if f[0] == "plain":
+            out.append(f[:3] + (None,))
+        elif f[0] == "secret":
+            out.append(f[:4] + (None,))
+        elif f[0] == "sub":
+            out.append(f[:3] + (_clear_faults(f[3]),))
+        elif f[0] == "list":
+            out.append(f[:3] + ([_clear_faults(it) for it in f[3]],))
+        else:
+            out.append(f)
+    return out
+
+
+def random_history(rng):
+    c = random_case(rng)
+    c["kind"] = "random-history"
+    kstate = dict(c["keyfiles"])
+    usable = [n for n, st in c["keyfiles"] if st != "nodir"]
+    dests = [d for d in ["d/dest.cfg", "d/other.bin", "~/dest.cfg"]]
+    more = []
+    draws = len(c["rng"])
+    for _ in range(rng.randint(1, 5)):
+        r = rng.random()
+        if r < 0.3 and usable:
+            n = rng.choice(usable)
+            what = rng.choice(["valid", "valid", "valid", "short", "long", "delete"])
+            if what == "delete":
+                more.append(("ext", n, None))
+                kstate[n] = "missing"
+                draws += 1
+            else:
+                content = vkey(rng.randint(20, 200)) if what == "valid" else KEYFILE_CONTENT[what](0)
+                more.append(("ext", n, content))
+                kstate[n] = what
+        elif r < 0.4:
+            d = rng.choice(dests)
+            more.append(("ext", d, rng.choice([None, b"", b"other\x00bytes" * 4])))
+        else:
+            fields = _clear_faults(c["fields"])
+            fmt = c["fmt"] if c["fmt"] in FORMATS and rng.random() < 0.8 else rng.choice(FORMATS)
+            faults, fmtfault = [], None
+            if rng.random() < 0.25:
+                fields = _vary(rng, fields)
+            positions = list(_paths(fields))
+            rr = rng.random()
+            if rr < 0.3 and positions:
+                path, f = rng.choice(positions)
+                if f[0] == "plain":
+                    fields = _replace(fields, path, lambda s: s[:3] + ("raise",))
+                    faults.append("to_basic")
+                elif f[0] == "secret" and f[3]:
+                    fields = _replace(fields, path, lambda s: s[:4] + ("enc",))
+                    faults.append("cipher")
+            elif rr < 0.38:
+                fmtfault = "patch"
+                faults.append("formatter")
+            elif rr < 0.43:
+                fmt = "nope"
+                faults.append("format")
+            for n, st in kstate.items():
+                if st in BAD_STATES:
+                    faults.append("keyfile-" + st)
+            for _, f in _paths(fields):
+                if f[0] == "any" and fmt in OUTSIDE[f[2]]:
+                    faults.append("domain:" + f[2])
+            dest = rng.choice(dests + [c["dest"], c["dest"], "nd/dest.cfg"])
+            if dest.startswith("nd/"):
+                faults.append("dest-open")
+            more.append(save_step(fmt, fields, dest=dest, fmtfault=fmtfault, faults=faults))
+    c["more"] = more
+    nsaves = 1 + sum(1 for st in more if st[0] == "save")
+    draws += nsaves * sum(1 for _, st in c["keyfiles"] if st == "nodir")     # a failed creation consumes its draw
+    c["rng"] = [bytes(rng.getrandbits(8) for _ in range(32)) for _ in range(draws + 1)]
+    return c
+
+
 def generate(rng, tier):
-    cases = matrix(FORMATS)
-    n = 1500 if tier == "quick" else 30000
+    cases = matrix(FORMATS) + histories(FORMATS)
+    n = 1000 if tier == "quick" else 20000
     for _ in range(n):
         cases.append(random_case(rng))
+    for _ in range(n // 2):
+        cases.append(random_history(rng))
     return cases
